@@ -85,15 +85,23 @@ def main(argv=None):
         for j in range(jobs):
             out = os.path.join(work, "out-%d.jsonl" % j)
             cmd = [sys.executable, "-m", "vt.worker", prop, casefile, out, str(j), str(jobs), str(deadline), str(seed), args.tier]
-            procs.append((subprocess.Popen(cmd, cwd=HERE, stdout=subprocess.PIPE, stderr=subprocess.PIPE, text=True), out, j))
+            # stderr goes to a file: sixteen pipes read one after the other fill up (a subject that logs a lot blocks on write)
+            errf = open(os.path.join(work, "err-%d.txt" % j), "w")
+            procs.append((subprocess.Popen(cmd, cwd=HERE, stdout=subprocess.DEVNULL, stderr=errf, text=True), out, j))
+            errf.close()
         hard = deadline + max(120, budget)  # generous wall-clock watchdog: firing is inconclusive
         for p, out, j in procs:
             try:
-                so, se = p.communicate(timeout=max(1, hard - time.time()))
+                p.wait(timeout=max(1, hard - time.time()))
             except subprocess.TimeoutExpired:
                 p.kill()
-                so, se = p.communicate()
+                p.wait()
                 inconclusive.append("worker %d exceeded the watchdog" % j)
+            try:
+                with open(os.path.join(work, "err-%d.txt" % j), errors="replace") as fp:
+                    se = fp.read()[-4000:]
+            except OSError:
+                se = ""
             if p.returncode not in (0,):
                 inconclusive.append("worker %d exited with %s: %s" % (j, p.returncode, (se or "")[-600:]))
             if os.path.exists(out):
